@@ -160,6 +160,16 @@ CLAIMED['C13'] = dict(
          'Known finding: Or(And(A,B),C) rule conditions change meaning.',
     ref='DESIGN.md section 4, C13')
 
+CLAIMED['C14'] = dict(
+    engine='symx',
+    technique='edit histories whose opcodes and operands are solver-chosen (forked choices over small name pools) executed on the real public API; z3 decides branch feasibility and certifies exhaustion of the bounded history tree; after every operation all views and usage records are cross-checked',
+    text='For EVERY history of length 1 over 22 operations (add/remove of junction, tank, reservoir, pipe, head/power pump, valve types, pattern, curve, source, control; reassignment of end nodes, speed pattern, pump curve, '
+         'volume curve) from three start models, and every history of length 2 within each operation family (thorough: length 2 over all operations, length 3 per family): name lists = iterators = counts, typed subsets '
+         'partition the node and link sets, end nodes are registered objects, get_links_for_node (ALL/INLET/OUTLET) and to_graph equal the links by end-node names, usage records and actual uses coincide, and a removal of '
+         'an element in use is refused leaving the dictionary unchanged. Rejected operations are part of the histories.',
+    note='Bounded exhaustive enumeration driven by the solver (discrete input space), not a proof beyond the bound; name pools of 3 nodes / 2 links / 2 patterns / 3 curves; self-loop links and re-used source names excluded.',
+    ref='DESIGN.md section 4, C14')
+
 NOT_APPLICABLE = {
     'C03': 'compares the numerical output of the closed EPANET shared library with a compiled Newton/SuperLU iteration; neither can be executed '
            'symbolically with the tools on this image and a contract standing in for EPANET would be the property itself (DESIGN.md section 5)',
